@@ -28,11 +28,30 @@ pub struct Round {
     pub abort_waiting: bool,
 }
 
+/// The listener's next `count` accept calls fail with `errno` (shim; the pending connection
+/// stays in the backlog and is accepted by a later retry).
+#[derive(Clone, Debug, Serialize, Deserialize)]
+pub struct AcceptFault {
+    /// 0 = armed before the first connection; r+1 = armed in round r just before the served
+    /// connection is ended (so the accept that follows the freed slot fails)
+    pub at: u8,
+    pub count: u8,
+    pub errno: i32,
+}
+
 #[derive(Clone, Debug, Serialize, Deserialize)]
 pub struct LimitCase {
     pub n: u8,
     pub rounds: Vec<Round>,
+    #[serde(default)]
+    pub accept_faults: Vec<AcceptFault>,
 }
+
+/// errnos a listener realistically sees from accept(): out of descriptors (process, system),
+/// out of memory / buffers, a connection that went away, an interrupted call.  EAGAIN is left
+/// out: the kernel never reports it with a connection pending, and faking it would park an
+/// edge-triggered listener on a readiness event that was already consumed.
+const ACCEPT_ERRNOS: [i32; 6] = [libc::EMFILE, libc::ENFILE, libc::ENOMEM, libc::ENOBUFS, libc::ECONNABORTED, libc::EINTR];
 
 fn strategy(tier: Tier) -> BoxedStrategy<LimitCase> {
     let maxn = tier.pick(5u8, 6u8);
@@ -46,7 +65,16 @@ fn strategy(tier: Tier) -> BoxedStrategy<LimitCase> {
                 ),
             )
         })
-        .prop_map(|(n, rounds)| LimitCase { n, rounds })
+        .prop_flat_map(|(n, rounds)| {
+            let nr = rounds.len() as u8;
+            let fault = (0u8..=nr, 1u8..=4, 0usize..ACCEPT_ERRNOS.len()).prop_map(|(at, count, e)| AcceptFault { at, count, errno: ACCEPT_ERRNOS[e] });
+            let faults = prop_oneof![
+                2 => Just(Vec::new()).boxed(),
+                1 => proptest::collection::vec(fault, 1..=3).boxed(),
+            ];
+            (Just(n), Just(rounds), faults)
+        })
+        .prop_map(|(n, rounds, accept_faults)| LimitCase { n, rounds, accept_faults })
         .boxed()
 }
 
@@ -79,6 +107,17 @@ fn scenario(c: &LimitCase, addr: &str, out: &mut Outcome) -> Verdict {
     let mut served: Vec<RawClient> = Vec::new();
     // clients whose connection the server has ended but which keep their socket open
     let mut zombies: Vec<RawClient> = Vec::new();
+    let mut armed_total = 0u32;
+    let mut fired_total = 0u32;
+    let arm = |at: usize, out: &mut Outcome, fired_total: &mut u32, armed_total: &mut u32| {
+        for f in c.accept_faults.iter().filter(|f| f.at as usize == at) {
+            *fired_total += crate::shim::accept_disarm();
+            crate::shim::accept_arm(f.count as u32, f.errno);
+            *armed_total += f.count as u32;
+            out.label(format!("accept-fault-errno-{}", f.errno));
+        }
+    };
+    arm(0, out, &mut fired_total, &mut armed_total);
     for i in 0..n {
         match open_served(addr, &format!("fill{}", i)) {
             Ok(cl) => served.push(cl),
@@ -123,7 +162,8 @@ fn scenario(c: &LimitCase, addr: &str, out: &mut Outcome) -> Verdict {
                 waiting = Some(w);
             }
         }
-        // end one served connection
+        // end one served connection (the accept that follows the freed slot may be made to fail)
+        arm(ri + 1, out, &mut fired_total, &mut armed_total);
         let vi = crate::gen::pick(r.victim, served.len());
         let mut v = served.remove(vi);
         let way = r.way % 7;
@@ -181,6 +221,12 @@ fn scenario(c: &LimitCase, addr: &str, out: &mut Outcome) -> Verdict {
             },
         }
     }
+    fired_total += crate::shim::accept_disarm();
+    out.count("accept-faults-armed", armed_total as u64);
+    out.count("accept-faults-fired", fired_total as u64);
+    if armed_total > 0 {
+        out.label(if fired_total == armed_total { "accept-faults-all-fired" } else { "accept-faults-some-overridden" });
+    }
     // after everything has come and gone the full number can be served concurrently
     for s in served.drain(..) {
         s.close();
@@ -237,6 +283,9 @@ fn exec(c: &LimitCase, env: &Env) -> Outcome {
     if c.n == 0 {
         return out;
     }
+    // the wait after a failed accept: 5 ms, doubling (at most 4 failures in a row = 75 ms)
+    crate::netfx::ACCEPT_MIN_BACKOFF_MS.store(5, std::sync::atomic::Ordering::SeqCst);
+    crate::shim::accept_disarm();
     let dir = env.fresh_dir("netstore");
     let srv = match ServerFx::start(&dir, &net_store_cfg(2 << 30), c.n as usize, 2) {
         Ok(s) => s,
@@ -246,7 +295,9 @@ fn exec(c: &LimitCase, env: &Env) -> Outcome {
         }
     };
     let addr = srv.addr();
-    match scenario(c, &addr, &mut out) {
+    let verdict = scenario(c, &addr, &mut out);
+    crate::shim::accept_disarm();
+    match verdict {
         Verdict::Ok => {}
         Verdict::Fail(sig, msg) => out.set_fail(sig, msg),
         Verdict::Timeout(sig, msg) => {
@@ -270,6 +321,7 @@ fn exec(c: &LimitCase, env: &Env) -> Outcome {
             let _ = std::fs::remove_dir_all(&dir2);
         }
     }
+    crate::shim::accept_disarm();
     if !srv.stop(Duration::from_secs(10)) {
         out.inconclusive.get_or_insert("server did not stop within 10 s".into());
     }
@@ -281,13 +333,13 @@ pub fn prop() -> Prop<LimitCase> {
     Prop {
         id: "C15",
         level: "exploration",
-        rule: "Cases: max_connections = N in 1..5 (6 thorough) and a scenario of N..3N+1 rounds against an in-process server. First N connections are opened and each gets a reply. Every round optionally probes with an over-limit client (connects, sends GET, must receive NOTHING for 300 ms; a third of these clients then abort their connection with RST while still in the listen backlog), then ends a generated served connection in a generated way (clean close; close with a half-sent frame; malformed/unknown command, garbage bytes, non-UTF-8 key, wrong argument count - the server closes and the client keeps its socket open; abrupt close with an unread reply), then the waiting client (or a new one) must be served within 10 s. Finally everything is closed, N fresh connections must all be served concurrently, and one more must again stay silent. Non-trivial: at least N faulty endings and at least one over-limit probe; distinct = distinct hash of the case.",
+        rule: "Cases: max_connections = N in 1..5 (6 thorough) and a scenario of N..3N+1 rounds against an in-process server. First N connections are opened and each gets a reply. Every round optionally probes with an over-limit client (connects, sends GET, must receive NOTHING for 300 ms; a third of these clients then abort their connection with RST while still in the listen backlog), then ends a generated served connection in a generated way (clean close; close with a half-sent frame; malformed/unknown command, garbage bytes, non-UTF-8 key, wrong argument count - the server closes and the client keeps its socket open; abrupt close with an unread reply), then the waiting client (or a new one) must be served within 10 s. A third of the cases also make the listener's accept() fail 1-4 times in a row (shim: EMFILE, ENFILE, ENOMEM, ENOBUFS, ECONNABORTED, EINTR; the connection stays in the backlog) at 1-3 generated moments - before the first connection or right before a served connection is ended, so that the accept following the freed slot fails; the server runs with min_backoff_ms = 5. Finally everything is closed, N fresh connections must all be served concurrently, and one more must again stay silent. Non-trivial: at least N faulty endings and at least one over-limit probe; distinct = distinct hash of the case.",
         assumptions: &[
             "the negative probe (silence for 300 ms) can only miss violations, never invent one: a reply needs an (N+1)-th handler",
             "a missed positive bound (10 s) counts as a violation only if a calibration round trip on an idle second server taken right afterwards is fast (< 500 ms), else the case is inconclusive",
             "no input is known to make a handler panic on the repaired tree, so the 'handler panic' ending is represented by the error endings; a panic would take the same Drop path",
         ],
-        needs_shim: false,
+        needs_shim: true,
         budget: |t| t.pick(480, 6000),
         shards: |_| 16,
         strategy,
